@@ -194,6 +194,9 @@ const (
 
 // newEnv builds a connection in its initial state (as NewConnectionHandler would) on fakes.
 func newEnv(role shipRole, remoteShipID string) *vEnv {
+	// the library's own short delays (delayed close <= 1 s) elapse when spawned goroutines run; handshake timers
+	// (>= 10 s or symbolic) never fire by themselves - a timeout is an explicit event of the harness
+	zzvrt.SetTimerLimit(time.Second)
 	log := &vLog{}
 	w := &vWriter{log: log}
 	info := &vInfo{log: log, reader: &vReader{log: log}}
